@@ -139,11 +139,70 @@ def access_sites(fn):
     return out
 
 
-def guard_for(fn, block, mention, need):
+def _sign_wrap(t):
+    """The comparison side as a whole is `(unsigned 64)(signed non-constant)` (explicit or implicit
+    conversion, possibly through several cast nodes): returns the signed operand or None."""
+    n = t
+    while isinstance(n, dict) and n.get("k") in ("copy", "paren"):
+        n = n.get("e")
+    if not (isinstance(n, dict) and n.get("k") in ("cast", "icast") and n.get("is") is False and
+            (n.get("iw") or 0) >= 64 and "v" not in n):
+        return None
+    e = n
+    while isinstance(e, dict) and e.get("k") in ("cast", "icast", "copy", "paren") and "v" not in e:
+        e = e.get("e")
+    if isinstance(e, dict) and e.get("is") is True and "v" not in e and (e.get("iw") or 0) >= 32 and \
+            e.get("k") in ("call", "bin", "var", "field", "param"):
+        return e
+    return None
+
+
+def _hazard(atoms):
+    """An atom bounds something by an unsigned view of a signed value that no other atom of the same
+    conjunction shows to be non-negative: in a primitive reader the read position may already lie behind the
+    end of the data, `remaining` is negative and the comparison passes for every size."""
+    from .taint import _tree_eq
+    for l, op, r in atoms:
+        for side in (l, r):
+            e = _sign_wrap(side) if isinstance(side, dict) else None
+            if e is None:
+                continue
+            nonneg = False
+            for l2, op2, r2 in atoms:
+                for a, b_, o in ((l2, r2, op2), (r2, l2, FLIP[op2])):
+                    c = _const(b_) if isinstance(b_, dict) else None
+                    if c is not None and isinstance(a, dict) and _tree_eq(a, e) and \
+                            ((o == ">=" and c >= 0) or (o == ">" and c >= -1)):
+                        nonneg = True
+            if not nonneg:
+                return True
+    return False
+
+
+def _helper_atoms(F, call, oc):
+    """`if (!CanRead(n)) return false;`: the conditions the bool helper returns, when its body is that simple."""
+    if F is None or not isinstance(call, dict) or call.get("k") != "call" or not oc:
+        return None
+    for tgt in F.targets(call):
+        if tgt.ret.get("t") != "bool":
+            continue
+        rets = [ev.get("e") for b, ev in tgt.returns()]
+        conds = [e for e in rets if isinstance(e, dict) and not (e.get("k") == "lit")]
+        if len(conds) == 1 and len(rets) == 1:
+            return _atoms(conds[0], True)
+    return None
+
+
+def guard_for(fn, block, mention, need, F=None):
     for cb, oc, cond in dominating_edges(fn, block):
         if isinstance(oc, tuple):
             continue
-        for l, op, r in _atoms(cond, oc):
+        ats = _atoms(cond, oc)
+        tree, oc2 = _strip_not(cond, oc)
+        ha = _helper_atoms(F, tree, oc2)
+        if _hazard(ats) or (ha is not None and _hazard(ha)):
+            continue          # not a bound: see _hazard
+        for l, op, r in ats:
             if l is None or r is None:
                 continue
             pl, pr = places(l), places(r)
@@ -183,7 +242,7 @@ def run(ctx, rep, scope_fns, rule, allow, classes, free_fns, control_names=()):
             seen.add(key)
             if b not in fn.reach_all():
                 continue
-            why = guard_for(fn, b, mention, need)
+            why = guard_for(fn, b, mention, need, F)
             construct = kind
             if why:
                 st, det, by = DISCHARGED, kind, why
